@@ -73,6 +73,8 @@ func (e *Exec) ErrString() string {
 var frameRe = regexp.MustCompile(`(?m)^(github\.com/grafana/cog[^\s(]*(?:\([^)]*\))?[^\s(]*)\(`)
 var genericArgs = regexp.MustCompile(`\[[^\]]*\]`)
 
+var kindAccessor = regexp.MustCompile(`^github\.com/grafana/cog/internal/ast\.\(?\*?Type\)?\.As[A-Z][A-Za-z]*\(`)
+
 // innermostCogFrame extracts the first cog function below the panic machinery.
 func innermostCogFrame(stack string) string {
 	lines := strings.Split(stack, "\n")
@@ -81,6 +83,11 @@ func innermostCogFrame(stack string) string {
 			continue
 		}
 		if strings.Contains(l, "/internal/zzverif") {
+			continue
+		}
+		// the kind accessors of ast.Type (AsStruct, AsScalar, ...) only dereference: the
+		// site of a crash in one of them is the caller that did not check the kind
+		if kindAccessor.MatchString(l) {
 			continue
 		}
 		// function line looks like: pkg/path.(*T).Method(args...)
